@@ -263,6 +263,48 @@ def rule_count_survives_reads(ctx):
     ctx.floor("C04.h reader paths", n, 5)
 
 
+def rule_exists_clause_kept(ctx):
+    """C04.k: IF EXISTS / IF NOT EXISTS of the user's DDL reaches the engine: without it the no-op case (dropping what is not
+    there, creating what is) raises instead of returning the status message."""
+    prog = ctx.prog
+    n = 0
+    for kind in all_kinds():
+        d = None
+        try:
+            from ..execmodel import descriptor
+            d = descriptor(kind)
+        except Exception:  # noqa: BLE001
+            continue
+        if not (isinstance(d, NodeV) and d.cls in ("Create", "Drop") and isinstance(d.args.get("exists"), Const) and d.args["exists"].v is True):
+            continue
+        for tr in traces(prog, kind):
+            t = tr.transformed
+            if not isinstance(t, NodeV):
+                continue
+            n += 1
+            if t.cls in ("Create", "Drop"):
+                ex = t.args.get("exists")
+                ok = isinstance(ex, Const) and ex.v is True
+                shown = tagof(ex)
+            else:
+                parts_ = []
+                for x in t.args.values():
+                    while isinstance(x, NodeV) and isinstance(x.args.get("this"), (NodeV, Str, Const)):
+                        x = x.args["this"]  # Command(expression=Literal(this=<text>))
+                    if isinstance(x, (Str, Const)):
+                        parts_.append(text_of(x))
+                txt = " ".join(parts_)
+                ok = "IF NOT EXISTS" in txt.upper() or "IF EXISTS" in txt.upper() or t.cls not in ("Command",)
+                shown = txt[:60]
+            ctx.ob("C04.k", f"{kind}: the IF [NOT] EXISTS clause survives the rewrite pipeline", ok, "fakesnow/transforms.py", shown)
+            if not ok:
+                ctx.violation("C04.k", "cursor", "FakeSnowflakeCursor._transform", f"{kind}: IF [NOT] EXISTS lost", "fakesnow/transforms.py",
+                              f"the statement generated for `{kind}` no longer has its IF [NOT] EXISTS clause: in the no-op case (the object is "
+                              f"already gone / already there) the engine raises instead of the statement returning its status message")
+            break
+    ctx.floor("C04.k statements with an existence clause", n, 3)
+
+
 from .c08 import rule_executemany  # noqa: E402  (every row of an executemany batch is executed: a batch read twice is empty the second time)
 from .c05 import rule_reset  # noqa: E402  (after a failed statement rowcount is None, not the previous statement's count)
 from .c16 import rule_nop  # noqa: E402  (a statement wrongly no-op'd changes no rows and reports no count)
@@ -328,6 +370,7 @@ def rule_executemany_count(ctx):
 
 
 RULES = [
+    ("C04.k", rule_exists_clause_kept, ("quick", "thorough")),
     ("C04.j", rule_executemany, ("quick", "thorough")),
     ("C04.i", rule_reset, ("quick", "thorough")),
     ("C04.h", rule_count_survives_reads, ("quick", "thorough")),
